@@ -408,6 +408,9 @@ func genC07(g *Gen) {
 			}
 			g.do(stp)
 		}
+		if g.rng.Intn(3) == 0 {
+			g.siblingAdds(f)
+		}
 		g.end()
 	}
 }
